@@ -89,6 +89,33 @@ theorem pool_exact {d : Disk} {c : List Block} (ci : ChainInv d c) (t h : Nat) :
   · rintro ⟨x, hx, rfl, ht⟩
     exact ci.exec_mem x hx t ht
 
+/-! ## the in-memory caches -/
+
+/-- **caches_agree.** Under the invariant every cache entry agrees with the store or is absent: a header in
+    the topBlocks cache is the header the height index holds at that height (and its block is in the hash
+    index); an orphan parked in futureBlocks is parked under its own parent hash and is a tree block. The
+    invariant is preserved by every delivery, reorg, crash + restart (`inv_add`, `inv_crash`), so this holds
+    at every quiescent point. -/
+theorem caches_agree {T : Nat → Option Block} {d : Disk} {m : Mem} {c : List Block} (inv : Inv T d m c) :
+    (∀ n z, m.top n = some z → d.heights n = some z ∧ d.blocks z.hash = some z ∧ z ∈ c) ∧
+    (∀ k f, m.future k = some f → f.pre = k ∧ T f.hash = some f) := by
+  refine ⟨fun n z hz => ?_, inv.fut⟩
+  have h := inv.cache n z hz
+  have hc := (inv.chain.heights_only n z h).1
+  exact ⟨h, inv.chain.blocks_mem z hc, hc⟩
+
+/-- **cache_transparent.** The cache-reading query `QueryBlockHeaderByHeight(h, true)` (hence `GetBlockHash`,
+    `QueryBlock`) returns exactly what the height index holds, at every height — also at heights the current
+    chain skips — whatever subset of the index the topBlocks LRU currently keeps (so LRU eviction of that
+    cache is not observable). -/
+theorem cache_transparent {T : Nat → Option Block} (s : St) (c : List Block) (inv : Inv T s.disk s.mem c) (h : Nat) :
+    s.lookupHeight h = s.disk.heights h := by
+  unfold St.lookupHeight
+  split
+  · rename_i x hx
+    exact (inv.cache h x hx).symm
+  · rfl
+
 /-! ## absent crashes -/
 
 /-- **inv_add.** Delivering any block of a valid tree through `AddBlockOnChain` — extension, sibling of
